@@ -22,21 +22,42 @@ fn main() {
     std::panic::set_hook(Box::new(|_| {}));
     match args[1].as_str() {
         "fs" => {
+            // vh fs <scenarios.json> <out.ndjson> [--crash permille] [--remount] [--seed n] [--skip k] [--append]
             let sc: J = serde_json::from_reader(std::fs::File::open(&args[2]).expect("open scenarios")).expect("parse scenarios");
-            let mut out = std::io::BufWriter::new(std::fs::File::create(&args[3]).expect("create out"));
+            let append = args.iter().any(|a| a == "--append");
+            let file = std::fs::OpenOptions::new().create(true).write(true).append(append).truncate(!append).open(&args[3]).expect("open out");
+            let skip: usize = arg_val(&args, "--skip").map(|s| s.parse().unwrap()).unwrap_or(0);
             let opts = fs::RunOpts {
                 crash_permille: arg_val(&args, "--crash").map(|s| s.parse().unwrap()).unwrap_or(0),
                 seed: arg_val(&args, "--seed").map(|s| s.parse().unwrap()).unwrap_or(1),
                 remount: args.iter().any(|a| a == "--remount"),
             };
+            let started = std::sync::Arc::new(std::sync::atomic::AtomicU64::new(0));
+            let progress_path = format!("{}.progress", &args[3]);
+            {
+                // watchdog: a single API call that runs for more than 30 s is a hang
+                let st = started.clone();
+                let pp = format!("{}.hang", &args[3]);
+                std::thread::spawn(move || loop {
+                    std::thread::sleep(std::time::Duration::from_secs(2));
+                    let t = st.load(std::sync::atomic::Ordering::SeqCst);
+                    let now = std::time::SystemTime::now().duration_since(std::time::UNIX_EPOCH).unwrap().as_secs();
+                    if t != 0 && now > t + 30 {
+                        let _ = std::fs::write(&pp, b"hang");
+                        std::process::exit(86);
+                    }
+                });
+            }
+            let mut sink = fs::Sink { out: std::io::BufWriter::new(file), progress_path, hist_index: 0, op_started: started };
             let mut tot = (0u64, 0u64, 0u64, 0u64, 0u64, 0u64);
-            for h in sc["histories"].as_array().unwrap() {
-                let mut events = Vec::new();
-                let st = fs::run_history(h, &mut events, &opts);
-                for e in &events {
-                    serde_json::to_writer(&mut out, e).unwrap();
-                    out.write_all(b"\n").unwrap();
+            for (hi, h) in sc["histories"].as_array().unwrap().iter().enumerate() {
+                if hi < skip {
+                    continue;
                 }
+                sink.hist_index = hi;
+                let mut events = Vec::new();
+                let st = fs::run_history(h, &mut events, &opts, &mut sink);
+                sink.flush_events(&mut events);
                 tot.0 += 1;
                 tot.1 += st.api_calls;
                 tot.2 += st.dev_writes;
@@ -44,7 +65,7 @@ fn main() {
                 tot.4 += st.crash_mounts;
                 tot.5 += st.panics;
             }
-            out.flush().unwrap();
+            let _ = std::fs::remove_file(format!("{}.progress", &args[3]));
             println!("{}", serde_json::json!({"histories": tot.0, "api_calls": tot.1, "dev_writes": tot.2, "dev_reads": tot.3, "crash_mounts": tot.4, "panics": tot.5}));
         }
         x => {
